@@ -253,7 +253,10 @@ func builtinCalls(x *ctx, prop string) {
 	gbase := gen.CfgClass{Frame: "Builtin", Class: "Gbase", ClassMethods: []gen.CfgMethod{newM("Gbase")}, InstanceMethods: []gen.CfgMethod{
 		{Name: "mm", Arguments: []gen.CfgArg{{Type: []string{"Int"}}}, ReturnType: ret("Int")},
 		{Name: "nn", Arguments: []gen.CfgArg{}, ReturnType: ret("String")},
-		{Name: "oo", Arguments: []gen.CfgArg{{Type: []string{"String"}}, {Type: []string{"DefaultInt"}}}, ReturnType: ret("Symbol")}}}
+		{Name: "oo", Arguments: []gen.CfgArg{{Type: []string{"String"}}, {Type: []string{"DefaultInt"}}}, ReturnType: ret("Symbol")},
+		// an overloaded method (two declarations) that Gsub inherits
+		{Name: "pp", Arguments: []gen.CfgArg{{Type: []string{"Int"}}}, ReturnType: ret("Int")},
+		{Name: "pp", Arguments: []gen.CfgArg{{Type: []string{"String"}}, {Type: []string{"Int"}}}, ReturnType: ret("Int")}}}
 	gsub := gen.CfgClass{Frame: "Builtin", Class: "Gsub", Extends: []string{"Gbase"}, ClassMethods: []gen.CfgMethod{newM("Gsub")}, InstanceMethods: []gen.CfgMethod{
 		{Name: "mm", Arguments: []gen.CfgArg{{Type: []string{"String"}}, {Type: []string{"String"}}}, ReturnType: ret("Float")},
 		{Name: "kk", Arguments: []gen.CfgArg{{Type: []string{"Symbol"}}}, ReturnType: ret("Bool")}}}
@@ -427,6 +430,78 @@ func builtinCalls(x *ctx, prop string) {
 					cases = append(cases, c)
 				}
 			}
+		}
+	}
+	// OVL: overloaded class methods that combine a rest parameter followed by a required positional (or a required
+	// keyword) with a fixed-arity declaration, in both declaration orders; a user subclass of a configured class
+	// calling an inherited overloaded method. Verdicts are written out by hand (every declaration rejects / one fits).
+	{
+		str, in := gen.CfgArg{Type: []string{"String"}}, gen.CfgArg{Type: []string{"Int"}}
+		rest := gen.CfgArg{Type: "*String"}
+		kreq := gen.CfgArg{Key: "kq:", Type: []string{"Int"}}
+		mm := func(name string, args ...gen.CfgArg) gen.CfgMethod {
+			return gen.CfgMethod{Name: name, Arguments: args, ReturnType: gen.CfgRet{Type: []string{"Float"}}}
+		}
+		ovl := gen.CfgClass{Frame: "Builtin", Class: "Ovl", ClassMethods: []gen.CfgMethod{
+			mm("ra", rest, in), mm("ra", str), // rest+trailing first, fixed second
+			mm("rb", str), mm("rb", rest, in), // reverse order
+			mm("rk", rest, kreq), mm("rk", str), // rest + required keyword first
+			mm("new"),
+		}, InstanceMethods: []gen.CfgMethod{mm("sc", in), mm("sc", str, in)}}
+		ovl.ClassMethods[6].ReturnType = gen.CfgRet{Type: []string{"Ovl"}}
+		ovlFiles := gen.Merge(core, map[string]string{"ovl.json": ovl.JSON()})
+		x.pool.NewCfgDir("ovl-all", ovlFiles)
+		extraCfg["ovl-all"] = map[string]string{"ovl.json": ovl.JSON()}
+		type oc struct {
+			call    string
+			classes []string
+			fits    bool
+			reason  string
+		}
+		var ocs []oc
+		for _, m := range []string{"ra", "rb"} {
+			ocs = append(ocs,
+				oc{"Ovl." + m + "(\"a\", \"b\", \"c\")", []string{"String", "String", "String"}, false, "every-overload-rejects"},
+				oc{"Ovl." + m + "(\"x\", \"y\")", []string{"String", "String"}, false, "every-overload-rejects"},
+				oc{"Ovl." + m, nil, false, "every-overload-rejects"},
+				oc{"Ovl." + m + "(\"a\")", []string{"String"}, true, ""},
+				oc{"Ovl." + m + "(\"a\", 1)", []string{"String", "Integer"}, true, ""},
+				oc{"Ovl." + m + "(\"a\", \"b\", 1)", []string{"String", "String", "Integer"}, true, ""},
+				oc{"Ovl." + m + "(1)", []string{"Integer"}, true, ""})
+		}
+		ocs = append(ocs,
+			oc{"Ovl.rk(\"a\", \"b\")", []string{"String", "String"}, false, "every-overload-rejects"},
+			oc{"Ovl.rk(\"a\", \"b\", \"c\")", []string{"String", "String", "String"}, false, "every-overload-rejects"},
+			oc{"Ovl.rk(\"a\")", []string{"String"}, true, ""},
+			oc{"Ovl.rk(\"a\", \"b\", kq: 1)", []string{"String", "String", "kq:Integer"}, true, ""},
+			// inherited overloads through a user subclass and through the configured class itself
+			oc{"Ovl.new.sc(\"s\", 1)", []string{"String", "Integer"}, true, ""},
+			oc{"Ovl.new.sc(1)", []string{"Integer"}, true, ""},
+			oc{"Ovl.new.sc(\"s\")", []string{"String"}, false, "every-overload-rejects"},
+			oc{"Uovl.new.sc(\"s\", 1)", []string{"String", "Integer"}, true, ""},
+			oc{"Uovl.new.sc(1)", []string{"Integer"}, true, ""},
+			oc{"Uovl.new.sc(\"s\")", []string{"String"}, false, "every-overload-rejects"},
+			oc{"Uovl.new.sc(1, 2, 3)", []string{"Integer", "Integer", "Integer"}, false, "every-overload-rejects"})
+		for _, o := range ocs {
+			setup := bcSetup
+			if strings.HasPrefix(o.call, "Uovl") {
+				// keep the call on the row the oracle looks at: the subclass goes on the `rv = 0` line
+				c := bcCase{cfg: "ovl-all", src: setup + "class Uovl < Ovl; end\ndbtp " + o.call + "\n", recv: recvKind{"Ovl", "Ovl", nil}, method: "ovl:" + o.call, args: o.classes, declared: true}
+				if o.fits {
+					c.verdict, c.wantType = ref.Fits, "Float"
+				} else {
+					c.verdict, c.reason = ref.Fails, o.reason
+				}
+				cases = append(cases, c)
+				continue
+			}
+			c := bcCase{cfg: "ovl-all", src: setup + "rv = 0\ndbtp " + o.call + "\n", recv: recvKind{"Ovl", "Ovl", nil}, method: "ovl:" + o.call, args: o.classes, declared: true}
+			if o.fits {
+				c.verdict, c.wantType = ref.Fits, "Float"
+			} else {
+				c.verdict, c.reason = ref.Fails, o.reason
+			}
+			cases = append(cases, c)
 		}
 	}
 	// select by property
@@ -806,6 +881,31 @@ func straightLinePrograms(thorough bool) []struct {
 			v.elems = addElem(v.elems, "Array<Symbol Integer>")
 			e["a"] = v
 			return "a", true
+		}},
+		// operator calls as statements and as array-literal elements (the element is the operator's result)
+		{"c = 2 * 3", "operator-call", func(e map[string]slVal) (string, bool) {
+			e["c"] = slVal{class: "Integer"}
+			return "c", true
+		}},
+		{"c = 4 - 1", "operator-call", func(e map[string]slVal) (string, bool) {
+			e["c"] = slVal{class: "Integer"}
+			return "c", true
+		}},
+		{"b = [c + 1.5]", "array-of-operator-result", func(e map[string]slVal) (string, bool) {
+			v, ok := e["c"]
+			if !ok || v.class != "Integer" {
+				return "", false
+			}
+			e["b"] = slVal{class: "Array", elems: []string{"Float"}}
+			return "b", true
+		}},
+		{"b = [c == 4, c - 1]", "array-of-operator-result", func(e map[string]slVal) (string, bool) {
+			v, ok := e["c"]
+			if !ok || v.class != "Integer" {
+				return "", false
+			}
+			e["b"] = slVal{class: "Array", elems: []string{"Bool", "Integer"}}
+			return "b", true
 		}},
 		{"c = a.length", "builtin-call", func(e map[string]slVal) (string, bool) {
 			v, ok := e["a"]
